@@ -662,10 +662,12 @@ class KeychainSqlite3(Keychain):
         name = Name.to_bytes(name)
         id_name = formal_name[:-2]
         key = self[id_name][formal_name]
+        # Remove the private key first: if that fails, nothing has changed and the call can be repeated;
+        # the other way round a failure would leave a private key that no entry refers to any more
+        self.tpm.delete_key(formal_name)
         self.conn.execute('DELETE FROM certificates WHERE key_id=?', (key.row_id,))
         self.conn.execute('DELETE FROM keys WHERE key_name=?', (name,))
         self.conn.commit()
-        self.tpm.delete_key(formal_name)
         self._signer_cache = {}
 
     def del_cert(self, name: NonStrictName):
